@@ -65,6 +65,12 @@ Proof.
   destruct n; [exact H|]. apply Forall_cons_iff in H as [Hx Hl]. cbn [skipn]. auto.
 Qed.
 
+Lemma skipn_skipn' {A} (l : list A) a b : skipn a (skipn b l) = skipn (b + a) l.
+Proof.
+  revert l; induction b as [|b IH]; intro l; [reflexivity|].
+  destruct l as [|x l]; [destruct a; reflexivity|]. cbn [skipn Nat.add]. apply IH.
+Qed.
+
 (* iteration *)
 Section IterFacts.
   Context {A : Type} (f : A -> res A).
